@@ -26,7 +26,7 @@ DEFAULT_PROFILE = dict(
     subscript_whole_array_results=True, raise_=True, nested_calls=True,
     persistent_arrays=True, name_pool="plain", zero_trip=True, negative_consts=True,
     dead_code=True, cond_in_call_args=True, bare_power=True, ne_operator=True,
-    pow_of_pow=True, loop_bound_vars=True, fresh_names=False, lookups=False, complex_vars=False, assign_all_state=False, time_advance=True, force_phases=None, extra_kinds=(), zero_arg_calls=True, builtin_set=None, yield_uvec_only=False, matmul_only=False, yield_call_free=False, minmax_loop_counter=True, builtin_kwargs=True, uvfn_boost=False, kw_reverse=True, triangular=True, recall=True, int_reassign=True, acc_loops=True, guarded_partial=True, split_calls=True, dt_change=True, surfaces=True, loop_vars=None, float_int_consts=True,
+    pow_of_pow=True, loop_bound_vars=True, fresh_names=False, lookups=False, complex_vars=False, assign_all_state=False, time_advance=True, force_phases=None, extra_kinds=(), zero_arg_calls=True, builtin_set=None, yield_uvec_only=False, matmul_only=False, yield_call_free=False, minmax_loop_counter=True, builtin_kwargs=True, uvfn_boost=False, kw_reverse=True, triangular=True, recall=True, int_reassign=True, acc_loops=True, guarded_partial=True, split_calls=True, dt_change=True, surfaces=True, loop_vars=None, float_int_consts=True, reuse_ids=False,
     real_temps=None, uvec_temps=None, arr_temps=None, flag_temps=None, int_temps=None,
 )
 
@@ -1412,7 +1412,8 @@ def methods(draw, profile=None):
     return {"phases": phases, "initial": names[0], "state": state,
             "t0": draw(st.sampled_from([0, 0, 1, 0.5, -1, -0.5, -2])), "dt0": draw(st.sampled_from([1, 0.5, 0.25, 2])),
             "ulen": g.ulen, "features": sorted(g.features | ({"kw_reverse"} if kw_reverse else set()) | {"surface_" + surface}),
-            "kw_reverse": kw_reverse, "surface": surface}
+            "kw_reverse": kw_reverse, "surface": surface,
+            "reuse_ids": bool(p["reuse_ids"] and nph > 1 and draw(st.integers(0, 99)) < 30)}
 
 
 # ---------------------------------------------------------------- structure helpers
